@@ -1,7 +1,27 @@
 """C04 - operands the ISA cannot encode are rejected, never mis-encoded."""
-from . import encgen, encrun
+from . import encgen, encrun, progcheck as P, progrun
 
 PROP = "C04"
+
+# register positions reached through a .def alias (and in any letter case) must be checked exactly like the register itself
+ALIAS_FORMS = ["ldi {R}, 1", "subi {R}, 1", "sbci {R}, 1", "andi {R}, 1", "ori {R}, 1", "sbr {R}, 1", "cbr {R}, 1", "cpi {R}, 1", "ser {R}",
+               "muls {R}, r16", "muls r16, {R}", "mulsu {R}, r16", "mulsu r16, {R}", "fmul {R}, r16", "fmul r16, {R}", "fmuls {R}, r17",
+               "fmulsu r17, {R}", "movw {R}, r0", "movw r0, {R}", "adiw {R}, 1", "sbiw {R}, 1", "mov {R}, r1", "add r1, {R}", "push {R}",
+               "in {R}, 1", "out 1, {R}", "ld {R}, X", "st Y+, {R}", "ldd {R}, Z+1", "lds {R}, 0x60", "sts 0x60, {R}", "sbrc {R}, 1", "lpm {R}, Z",
+               ".device ATtiny20\n lds {R}, 0x60", ".device ATtiny20\n sts 0x60, {R}"]
+
+
+def alias_cases():
+    out = []
+    for n in range(32):
+        for f in ALIAS_FORMS:
+            pre, _, line = f.rpartition("\n")
+            pre = pre + "\n" if pre else ""
+            plain = "%s %s\n" % (pre, line.replace("{R}", "r%d" % n))
+            for alias, ref in (("tmp", "tmp"), ("Tmp", "TMP")):
+                aliased = "%s.def %s = r%d\n %s\n" % (pre, alias, n, line.replace("{R}", ref))
+                out.append((plain, aliased))
+    return out
 
 
 def run(res):
@@ -15,12 +35,34 @@ def run(res):
               "operand list of length 0..2 (thorough: 3) over {low reg, high reg, value, X, Y+, -Z, Y+q, Z} (confusions()); oracle: "
               "Spec/Isa.expect_at = NONE -> must be an error; = words -> must be exactly those bytes; distinct = distinct case text"),
         exhaustive_note="bounded-exhaustive over the windows and the operand-kind dictionary stated in the rule",
-        assume=["Props/C04.v proves soundness of acceptance on a finite, kernel-swept operand window plus unbounded range lemmas for "
+        assume=["register operands written through a .def alias: compared with the same statement on the register itself (alias_cases)",
+                "Props/C04.v proves soundness of acceptance on a finite, kernel-swept operand window plus unbounded range lemmas for "
                 "the value guards; acceptance of values beyond the window is covered by this run's wider windows only"])
 
 
-match_known = encrun.match_known
+    # aliases: same verdict and same bytes as the register written directly
+    from . import common as C
+    vh = C.build_harness("debug")
+    exe = C.build_model()
+    pairs = alias_cases()
+    obs = P.correspond(res, vh, exe, [p[0] for p in pairs] + [p[1] for p in pairs], "register-alias statements")
+    for plain, aliased in pairs:
+        a, b = progrun.parse_obs(obs[plain][0]), progrun.parse_obs(obs[aliased][0])
+        if (a["kind"], a.get("code")) != (b["kind"], b.get("code")):
+            P.fail(res, "builder::build_str", aliased, "as with the register written directly: " + obs[plain][0][:60], obs[aliased][0][:60], "alias-differs", extra=dict(plain=plain))
+
+
+def match_known(f, entry):
+    return entry.get("class") is not None and f.get("cls") == entry.get("class")
 
 
 def replay(path):
+    import json
+    i = json.load(open(path)).get("input") or {}
+    if "plain" in i:
+        def judge(vh, exe, inp):
+            (_, a, _), (_, b, _) = progrun.run_texts(vh, exe, [inp["plain"], inp["source"]])
+            pa, pb = progrun.parse_obs(a), progrun.parse_obs(b)
+            return None if (pa["kind"], pa.get("code")) == (pb["kind"], pb.get("code")) else (a, b)
+        return P.replay_text(PROP, path, judge)
     return encrun.replay(PROP, path)
